@@ -5,7 +5,7 @@ import json, os, glob
 NOTES = {
  'S1-C01': "caught at once.",
  'S1-C02': "the patch was written against 793dc50; after the later repair of syncPutOnCluster it was rebased by hand (patch.diff is the rebased one, patch_original_base_793dc50.diff the original). Caught at once.",
- 'S1-C03': "missed at first (0 of ~400 runs). Two things were wrong: the generator never wrote, deleted and read one key inside the window between the routing push and the fragment move (added controller-owned hot keys h0..hN with put/del/get bursts right after every join), and a known-finding subject regexp containing a blank had been cut to '.*' by the loader and hid every deleted-key-resurrected (loader fixed, regexps use \\s). Caught in about a third of the runs since.",
+ 'S1-C03': "missed at first (0 of ~400 runs). Two things were wrong: the generator never wrote, deleted and read one key inside the window between the routing push and the fragment move (added controller-owned hot keys h0..hN with put/del/get bursts right after every join), and a known-finding subject regexp containing a blank had been cut to '.*' by the loader and hid every deleted-key-resurrected (loader fixed, regexps use \\s). Caught in about a third of the runs since. After the repair a4e7045 restructured deleteKey (previous owners are asked before the local lock is taken) the original patch still applied but only changed the eviction path, so it was rebased by hand onto the new deleteKey with the same idea (a key present locally skips the previous owners): patch.diff is the rebased one, the demonstration fails with it and passes without it; patch_original_base_879413e.diff is the original.",
  'S1-C04': "missed at first: every chain of the check was sequential per key. Added burst phases (2-6 clients work on one key concurrently, census of all copies once everything is acknowledged). Caught since.",
  'S1-C05': "caught at once.",
  'S1-C07': "caught at once (about half of the runs).",
@@ -24,6 +24,7 @@ NOTES = {
  'S3-C19': "missed at first (0/719): the check destroyed the DMap once. Added the redestroy phase (Destroy, writes through the retained embedded handles only, Destroy again at once or a little later, 1-3 rounds, then every key, copy, scan and STATS must be empty). Caught in 33 of 724 runs since.",
  'S3-C20': "missed at first (0/139): the churn was uniform over the key set. Added skewed churn (cold keys written once fill most of the oldest table of each fragment, a few hot keys are churned). Caught in 64 of 169 runs since.",
  'S3-C05': "second, independent change for C05 (distributeBackups edits the live backup-owner list in place). Missed at first: the enumerated space had no membership change. Added the 'leave' kind (a backup owner leaves or crashes while four writers put fresh keys on the coordinator, copies counted after every acknowledged Put, 7/71/271 partitions). Caught in 2 of 229 runs since; with the change some runs also fail to form a stable cluster (reported as infra-note, not as a violation of C05).",
+ 'S3-C02': "second, independent change for C02 (fragment.Move releases the fragment lock while the table travels). Missed by C02 at first (caught by C03): deletes rarely coincided with the re-replication moves after a stop. Added the sweeper variant (slow network, 4 clients deleting their own keys one by one through the failure, 7 partitions). Caught by C02 since, rarely (3 of 192 runs); C03 catches it more often (6 of 246).",
  'S3-C03': "second, independent change for C03 (fragment.Move drops the table although the target refused it). Caught at once (key-lost).",
  'S3-C13': "second, independent change for C13 (stale backup owners when the cluster shrinks to one member). Caught at once (not-stabilised).",
 }
